@@ -10,7 +10,7 @@
    the calls the code makes on that state (same items applied).  IterBatchUpd/IterBatchDel are the two
    IterBatched variants (batch callbacks, error answers, partial batches); DesSetMany is a bulk Desired().Set. *)
 From Coq Require Import List NArith ZArith Bool.
-From Verif.C18 Require Import Model Spec Proofs Cache Meets MeetsCache Order.
+From Verif.C18 Require Import Model Spec Proofs Cache Meets MeetsCache Order Reentrant.
 Import ListNotations.
 Open Scope N_scope.
 
@@ -290,3 +290,35 @@ Theorem c18_in_sync_iff : forall (V : Type) (veq : V -> V -> bool), (forall a, v
   (in_sync V s = true -> (forall a b, veq a b = true -> a = b) -> forall k, des_get V s k = dp_get V s k).
 Proof. exact in_sync_iff. Qed.
 Print Assumptions c18_in_sync_iff.
+
+(* ---------- callbacks that call back into the tracker during PendingUpdates().Iter ----------
+   (assumed away by the theorems above; no caller in /repo mutates the tracker from the callback) *)
+(* Harmless as long as the callback leaves the visited key pending with the value it was shown. *)
+Theorem c18_reentrant_harmless : forall (V : Type) (veq : V -> V -> bool), (forall a, veq a a = true) ->
+  forall (fixed : bool) (s : st V) (k : N) (cb : list (op V)) (v : V), get (DU s) k = Some v ->
+  get (DU (fold_left (step V veq fixed) cb s)) k = Some v ->
+  pu_visit_re V veq fixed s k cb AUpd = pu_visit V (fold_left (step V veq fixed) cb s) (k, AUpd) /\
+  pu_visit_re_fix V veq fixed s k cb AUpd = pu_visit V (fold_left (step V veq fixed) cb s) (k, AUpd).
+Proof. exact reentrant_harmless. Qed.
+Print Assumptions c18_reentrant_harmless.
+
+(* REFUTED for the pinned Iter in general: a Desired().Set on the visited key made by the callback is overwritten by
+   the UpdateDataplane answer (replayed on the real code; repair proposed in fixes/C18-iter-update-as-dataplane-set.patch). *)
+Theorem c18_reentrant_set_lost_refuted :
+  exists (s : st N) (k : N) (cb : list (op N)),
+    Inv N N.eqb s /\ pu_get N s k <> None /\
+    des_get N (pu_visit_re N N.eqb false s k cb AUpd) k <> des_get N (fold_left (step N N.eqb false) cb s) k.
+Proof. exact reentrant_set_lost_refuted. Qed.
+Print Assumptions c18_reentrant_set_lost_refuted.
+
+(* With that repair (UpdateDataplane really calls Dataplane().Set(k, v)) ANY re-entrant callback is fine: the turn is
+   the callback's operations followed by Dataplane().Set(k, v), which c18_views_exact covers. *)
+Theorem c18_reentrant_fixed_exact : forall (V : Type) (veq : V -> V -> bool),
+  (forall a, veq a a = true) -> (forall a b, veq a b = veq b a) ->
+  (forall a b c, veq a b = true -> veq b c = true -> veq a c = true) ->
+  forall (fixed : bool) (s : st V) (DP : amap V * amap V) (k : N) (cb : list (op V)) (v : V),
+  Inv V veq s -> R V veq s DP -> ops_ok V veq fixed s cb -> get (DU s) k = Some v ->
+  let s' := pu_visit_re_fix V veq fixed s k cb AUpd in
+  Inv V veq s' /\ R V veq s' (a_step V veq (fold_left (a_step V veq) cb DP) (DpSet k v)).
+Proof. exact reentrant_fixed_exact. Qed.
+Print Assumptions c18_reentrant_fixed_exact.
